@@ -498,17 +498,44 @@ pub fn noop_waker() -> std::task::Waker {
     unsafe { Waker::from_raw(RawWaker::new(std::ptr::null(), &VTABLE)) }
 }
 
+/// A waker that counts how often it was woken: the task's waker of the hand-written drivers. Every scripted transport
+/// wakes the waker it is given before it answers Pending, so a future that returns Pending without this count having
+/// moved has not passed the task's waker down (or has swallowed the transport's answer): under a real executor nobody
+/// would ever poll it again.
+pub struct WakeCount(std::sync::atomic::AtomicUsize);
+impl WakeCount {
+    pub fn get(&self) -> usize {
+        self.0.load(std::sync::atomic::Ordering::Relaxed)
+    }
+}
+impl std::task::Wake for WakeCount {
+    fn wake(self: std::sync::Arc<Self>) {
+        self.0.fetch_add(1, std::sync::atomic::Ordering::Relaxed);
+    }
+    fn wake_by_ref(self: &std::sync::Arc<Self>) {
+        self.0.fetch_add(1, std::sync::atomic::Ordering::Relaxed);
+    }
+}
+pub fn counting_waker() -> (std::task::Waker, std::sync::Arc<WakeCount>) {
+    let a = std::sync::Arc::new(WakeCount(std::sync::atomic::AtomicUsize::new(0)));
+    (std::task::Waker::from(a.clone()), a)
+}
+
 /// Polls a future to completion by hand (the scripted transports wake immediately, so a
 /// Pending simply means "poll again"). Returns the output and the number of Pending results.
 pub fn drive<F: std::future::Future>(fut: F, max_polls: usize) -> (F::Output, usize) {
-    let waker = noop_waker();
+    let (waker, wakes) = counting_waker();
     let mut cx = Context::from_waker(&waker);
     let mut fut = std::pin::pin!(fut);
     let mut pendings = 0;
     loop {
+        let before = wakes.get();
         match fut.as_mut().poll(&mut cx) {
             Poll::Ready(v) => return (v, pendings),
             Poll::Pending => {
+                if wakes.get() == before {
+                    panic!("MQV-SPIN (lost wake-up) the future returned Pending in a poll in which the waker of the task was not woken, although the transport wakes whoever polls it before it answers Pending: under an executor this operation never completes");
+                }
                 pendings += 1;
                 if pendings > max_polls {
                     panic!("MQV-SPIN future returned Pending {} times", pendings);
